@@ -28,7 +28,10 @@
 //     must get back the very value the layer below returned (errident.go),
 //   - CONFIGURATION ORDER: a carrier with transport-level interceptors as one long-lived object: every program of
 //     registrations (plain / decorated) and (re)configurations of the transport-level interceptors {T1, T2, none},
-//     with calls after every step; each call must pass the interceptor in force when it is made (cfgorder.go).
+//     with calls after every step; each call must pass the interceptor in force when it is made (cfgorder.go),
+//   - ONWARD MULTIPLICITY: how many times an interceptor calls onward within one RPC (a server-side retry): every
+//     onward-calling interceptor on the path makes 1..2 (thorough 1..3) onward calls one after the other; EVERY onward
+//     call must go through all the layers below, in order, and then the handler (multiplicity.go).
 package main
 
 import (
@@ -144,6 +147,8 @@ type caseT struct {
 	Ov *ovT `json:"ov,omitempty"`
 	// Vw, when set, makes this a VIEW PROGRAM case (views.go); only Carrier and Form are used besides
 	Vw *vwT `json:"vw,omitempty"`
+	// Mu, when set, makes this an ONWARD MULTIPLICITY case (multiplicity.go)
+	Mu *muT `json:"mu,omitempty"`
 }
 
 var seqNames = []string{"nil", "A", "B"}
@@ -183,6 +188,9 @@ func (c caseT) String() string {
 	if c.Ov != nil {
 		s += " " + c.Ov.String()
 	}
+	if c.Mu != nil {
+		s += " " + c.Mu.String()
+	}
 	return s
 }
 
@@ -212,6 +220,9 @@ type entry struct {
 	csAfter, ssAfter bool
 	rpc              int         // overlap cases: the RPC this event belongs to (read from the request / the stream's metadata)
 	panicked         interface{} // a panic recovered around the onward call made from another goroutine
+	// onward multiplicity cases: one record per onward call made (interceptors); the how-many-th run of the handler in this RPC (H)
+	ons []*onwardRec
+	run int
 }
 
 // ctxKey: the key under which interceptor <who> stores "ctx:<who>" in the context it hands onward
@@ -250,6 +261,9 @@ type clog struct {
 	ov *ovState
 	// error identity cases: the kind of error that fail-raw / rewrite-raw interceptors return
 	ek int
+	// onward multiplicity cases: how often each interceptor calls onward, what it hands onward; handler runs in the current RPC
+	mul   *muT
+	hruns int
 }
 
 func (l *clog) onward(who string) {
@@ -297,6 +311,9 @@ func mkUnary(l *clog, who string, b, mod int) grpc.UnaryServerInterceptor {
 			e.retErr = rawErr(l.ek, who)
 		default: // the onward-calling behaviours
 			e.called = true
+			if l.mul != nil {
+				return l.muUnary(e, who, b, ctx, req, info, handler)
+			}
 			octx, oreq := ctx, req
 			if sv, ok := req.(*wrapperspb.StringValue); ok && mod&mReq != 0 {
 				oreq = wrapperspb.String(sv.Value + "+" + who) // the received request itself stays untouched
@@ -350,6 +367,9 @@ func mkStream(l *clog, who string, b, mod int) grpc.StreamServerInterceptor {
 			e.retErr = rawErr(l.ek, who)
 		default: // the onward-calling behaviours
 			e.called = true
+			if l.mul != nil {
+				return l.muStream(e, who, b, srv, ss, info, handler)
+			}
 			oss := ss
 			if mod&mReq != 0 {
 				oss = &wrapStream{ServerStream: ss, who: who, ctx: context.WithValue(e.ctx, ctxKey{who}, "ctx:"+who)}
@@ -412,9 +432,14 @@ func makeDescNamed(svcName, pre string, c caseT, l *clog) *grpc.ServiceDesc {
 			if l.ov != nil {
 				e.rpc = rpcOfReq(req)
 			}
-			if c.HErr && c.EK != 0 {
+			herr := c.HErr
+			if l.mul != nil {
+				e.run = l.nextRun()
+				herr = l.mul.handlerFails(c.HErr, e.run)
+			}
+			if herr && c.EK != 0 {
 				e.retErr = rawErr(c.EK, "H")
-			} else if c.HErr {
+			} else if herr {
 				e.retErr = status.Error(codes.NotFound, "handler error")
 			} else {
 				e.retResp = wrapperspb.String("resp:" + name)
@@ -441,17 +466,22 @@ func makeDescNamed(svcName, pre string, c caseT, l *clog) *grpc.ServiceDesc {
 			if l.ov != nil {
 				e.rpc = rpcOfCtx(e.ctx)
 			}
+			herr := c.HErr
+			if l.mul != nil {
+				e.run = l.nextRun()
+				herr = l.mul.handlerFails(c.HErr, e.run)
+			}
 			var in wrapperspb.StringValue
 			if err := stream.RecvMsg(&in); err == nil {
 				e.reqValue = in.Value
 			} else {
 				e.reqValue = "<recv error: " + err.Error() + ">"
 			}
-			if c.HErr && c.EK != 0 {
+			if herr && c.EK != 0 {
 				e.retErr = rawErr(c.EK, "H")
 				return e.retErr
 			}
-			if c.HErr {
+			if herr {
 				e.retErr = status.Error(codes.NotFound, "handler error")
 				return e.retErr
 			}
@@ -1087,6 +1117,9 @@ func runCase(c caseT, verbose bool) (probs []problem, observed string) {
 	if c.Cfg != nil {
 		return runCfg(c, verbose)
 	}
+	if c.Mu != nil {
+		return runMu(c, verbose)
+	}
 	atomic.AddInt64(&progress, 1)
 	current.Store(c.String())
 	add := func(clause, sub, what string) { probs = append(probs, problem{clause, sub, what}) }
@@ -1368,6 +1401,9 @@ func fingerprint(c caseT, pr problem) string {
 			fp += "|views-early"
 		}
 		return fp + "|" + pr.sub + "|" + pr.clause
+	}
+	if c.Mu != nil {
+		return muFingerprint(c, pr)
 	}
 	if c.EK != 0 {
 		// error identity: as below, with the kind of error that travels
